@@ -125,7 +125,10 @@ def r1(ctx, res):
                      "(varargs / keyword-only / positional)")
     # sibling cross-check: the omission test and element equality must use the same notion of "equal"
     eq_ = ctx.func("Element.__eq__")
-    eq_bool_aware = has("replace_bool(MV__)", eq_) or any(has("replace_bool(MV__)", g_.node) for g_ in list(eq_.lambdas) + list(eq_.nested.values()))
+    eq_helpers_ = list(eq_.lambdas) + list(eq_.nested.values()) + [s_.callee for s_ in ctx.inf.sites(eq_)[0]
+                                                                  if s_.kind == "call" and s_.callee.module.name.startswith("statham.")]
+    eq_bool_aware = has("replace_bool(MV__)", eq_) or has("replace_bool(MV__)", view(eq_, ctx.prog).body) \
+        or any(has("replace_bool(MV__)", g_.node) for g_ in eq_helpers_)
     omit_bool_aware = has("replace_bool(MV__)", f) or has("isinstance(MV__, bool) == isinstance(MV__.default, bool)", f)
     res.judge(True if (eq_bool_aware == omit_bool_aware) else False, f, "value == param.default (plain ==) vs Element.__eq__ (bool-aware)",
               reason="repr omits a keyword when it equals the default under Python's ==, but Element.__eq__ tells 0 from False: "
